@@ -1491,6 +1491,78 @@ def r8_pair_code_stride(ctx, rid):
                                  f"({len(funcs)} functions scanned)", label="pair code stride: none used", nontrivial=False)
 
 
+def _source_path_params(ctx, f) -> List[str]:
+    """The parameters that identify the buffered source variable: the holes of the `self[f"{node}/{op}/{var}"]` lookup."""
+    for n in walk_shallow(f.node):
+        if isinstance(n, ast.Subscript) and isinstance(n.value, ast.Name) and n.value.id == f.self_name \
+                and isinstance(n.slice, (ast.JoinedStr, ast.Name, ast.BinOp)):
+            t = fstring_template(n.slice) if isinstance(n.slice, ast.JoinedStr) else U.render_expr(ctx, f, n.slice)
+            parts = [_single_hole(x) for x in t.split("/")]
+            if len(parts) == 3 and all(h in f.params for h in parts):
+                return parts
+    raise AnalysisError(f"{f.qual}: cannot identify the parameters that name the source variable (no self[f'{{node}}/{{op}}/{{var}}'] lookup)")
+
+
+def r9_ring_registry_key(ctx, rid):
+    """A registry kept on the object that lets a later call re-use the ring buffer an earlier call attached to a source variable
+    (`ring = self.R.get(key)` ... `self.R[key] = ring`) may hand the buffer only to a call for the very same source: the key must
+    contain every parameter that identifies the buffered source variable (node, operator, variable of the self[node/op/var]
+    lookup).  A key without one of them lets another variable re-use a buffer that records a different signal."""
+    funcs = []
+    for r in ring_siblings(ctx):
+        if all(r.f is not g for g in funcs):
+            funcs.append(r.f)
+    n_reg = 0
+    for f in funcs:
+        stores = {}
+        for n in walk_shallow(f.node):
+            if isinstance(n, ast.Assign):
+                for t in n.targets:
+                    if isinstance(t, ast.Subscript) and isinstance(t.value, ast.Attribute) and isinstance(t.value.value, ast.Name) \
+                            and t.value.value.id == f.self_name and t.value.attr != "edges":
+                        stores.setdefault(t.value.attr, []).append((n, t.slice))
+        for attr, sts in stores.items():
+            # a registry only if the same function also looks entries up
+            lookups = []
+            for n in walk_shallow(f.node):
+                if isinstance(n, ast.Call) and call_name(n) in ("get", "pop", "setdefault") and isinstance(n.func, ast.Attribute) \
+                        and isinstance(n.func.value, ast.Attribute) and n.func.value.attr == attr and n.args:
+                    lookups.append(n.args[0])
+                elif isinstance(n, ast.Subscript) and isinstance(n.ctx, ast.Load) and isinstance(n.value, ast.Attribute) and n.value.attr == attr \
+                        and isinstance(n.value.value, ast.Name) and n.value.value.id == f.self_name:
+                    lookups.append(n.slice)
+                elif isinstance(n, ast.Compare) and len(n.ops) == 1 and isinstance(n.ops[0], (ast.In, ast.NotIn)) \
+                        and isinstance(n.comparators[0], ast.Attribute) and n.comparators[0].attr == attr:
+                    lookups.append(n.left)
+            if not lookups:
+                continue
+            n_reg += 1
+            src = _source_path_params(ctx, f)
+            for st, key in sts:
+                kdef = key
+                if isinstance(key, ast.Name):
+                    kdef = U.single_value(ctx, f, key)
+                    if kdef is None:
+                        raise AnalysisError(f"{rid}: {f.qual}: registry key `{key.id}` of self.{attr} has no single definition")
+                knames = {x.id for x in ast.walk(kdef) if isinstance(x, ast.Name) and U.is_param(ctx, f, x)}
+                if not knames:
+                    raise AnalysisError(f"{rid}: {f.qual}: registry key `{ast.unparse(kdef)}` of self.{attr} does not mention a parameter (unrecognised form)")
+                missing = [p_ for p_ in src if p_ not in knames]
+                facts = {"registry": f"self.{attr}", "key": ast.unparse(kdef), "source_parameters": src}
+                label = f"ring registry self.{attr}: key identifies the source"
+                if missing:
+                    ctx.violation(rid, f, st, f"`self.{attr}` lets a later call re-use the ring buffer filed under `{ast.unparse(kdef)}`, but the key lacks "
+                                              f"{missing} of the source path {src}: a call for another {'/'.join(missing)} of the same "
+                                              f"{'/'.join(p_ for p_ in src if p_ not in missing)} finds the entry and reads a buffer that records a different "
+                                              f"source signal", facts, label=label)
+                else:
+                    ctx.ok(rid, f, st, f"the registry key `{ast.unparse(kdef)}` contains every parameter that identifies the buffered source {src}", facts,
+                           label=label)
+    if n_reg == 0:
+        f0 = funcs[0] if funcs else U.method(ctx, "_add_edge_buffer")
+        ctx.ok(rid, f0, f0.node, "no registry on the object re-uses a ring buffer for later calls", label="ring registry: none", nontrivial=False)
+
+
 def r7_conversion_memo_key(ctx, rid):
     """The time -> steps conversion depends on the step size of the network being compiled (and on the caller's discretize
     flag).  A result may therefore be remembered across calls only under a key that contains everything it was computed
@@ -1540,5 +1612,6 @@ RULES = [
     ("C09-R5", r5_slot_order, 4),          # accumulation, >= 1 call site, re-pointing loop, flattening (6 today: 3 call sites)
     ("C09-R6", r_perm_identity, 1),
     ("C09-R8", r8_pair_code_stride, 1),
+    ("C09-R9", r9_ring_registry_key, 1),
     ("C09-R7", r7_conversion_memo_key, 2),   # one obligation per conversion function (_preprocess_delay, _process_delays)
 ]
